@@ -40,8 +40,12 @@ def chunk_letters(repo):
     # the accumulator returned FIRST collects the insertion letters, the second the patch/removal letters (name independent)
     first = None
     for r in walk_no_nested(fn):
-        if isinstance(r, ast.Return) and isinstance(r.value, ast.Tuple) and len(r.value.elts) == 2 and isinstance(r.value.elts[0], ast.Name):
-            first = r.value.elts[0].id
+        if isinstance(r, ast.Return) and isinstance(r.value, ast.Tuple) and len(r.value.elts) == 2:
+            e0 = r.value.elts[0]
+            if isinstance(e0, ast.Name):
+                first = e0.id
+            elif isinstance(e0, ast.Call) and isinstance(e0.func, ast.Attribute) and e0.func.attr == 'join' and len(e0.args) == 1 and isinstance(e0.args[0], ast.Name):
+                first = e0.args[0].id          # letters collected in a list and joined
     if first is None:
         raise AnalysisError('chunk_typename: `return <a-letters>, <p-letters>` not found')
     for n in walk_no_nested(fn):
@@ -54,6 +58,10 @@ def chunk_letters(repo):
                         if isinstance(st, ast.AugAssign) and isinstance(st.value, ast.Constant):
                             which = 'a' if dotted(st.target) == first else 'p'
                             out[op] = (which, st.value.value)
+                        elif isinstance(st, ast.Expr) and isinstance(st.value, ast.Call) and isinstance(st.value.func, ast.Attribute) and st.value.func.attr == 'append' and \
+                                len(st.value.args) == 1 and isinstance(st.value.args[0], ast.Constant):
+                            which = 'a' if dotted(st.value.func.value) == first else 'p'
+                            out[op] = (which, st.value.args[0].value)
             break
     if len(out) < 6:
         raise AnalysisError('chunk_typename table has %d entries' % len(out))
